@@ -133,10 +133,60 @@ func (db *mDB) buildCH() *chsim.DB {
 	c.AddTable("samples_v3", []string{"fingerprint", "timestamp_ns", "value", "string", "type"}, samples)
 	c.AddTable("time_series", []string{"date", "fingerprint", "labels", "name", "type"}, series)
 	c.AddTable("time_series_gin", []string{"date", "key", "val", "fingerprint", "type"}, gin)
+	// metrics_15s: materialized view metrics_15s_mv of ctrl/qryn/sql/log.sql - GROUP BY fingerprint,
+	// intDiv(timestamp_ns, 15e9) * 15e9, type (one insert block; state columns in chsim's
+	// representation: count = partial count, last = Tuple{value, timestamp_ns} of argMaxState).
+	// It is there so that a Select sent to the roll-up table by mistake yields other numbers
+	// (bucket-start timestamps, one value per 15 s) instead of an unknown-table error.
+	c.AddTable("metrics_15s", []string{"fingerprint", "timestamp_ns", "last", "max", "min", "count", "sum", "bytes", "type", "type_v2"}, rollup15s(samples))
+	c.Alias("metrics_15s_dist", "metrics_15s")
 	c.Alias("samples_v3_dist", "samples_v3")
 	c.Alias("time_series_dist", "time_series")
 	c.Alias("time_series_gin_dist", "time_series_gin")
 	return c
+}
+
+func rollup15s(samples [][]any) [][]any {
+	type key struct {
+		fp     uint64
+		bucket int64
+		tp     uint8
+	}
+	type agg struct {
+		lastV, max, min, sum, bytes float64
+		lastT                       int64
+		count                       uint64
+	}
+	aggs := map[key]*agg{}
+	var order []key
+	for _, r := range samples {
+		fp, ts, v, str, tp := r[0].(uint64), r[1].(int64), r[2].(float64), r[3].(string), r[4].(uint8)
+		k := key{fp, ts / 15_000_000_000 * 15_000_000_000, tp}
+		a := aggs[k]
+		if a == nil {
+			a = &agg{lastV: v, lastT: ts, max: v, min: v}
+			aggs[k] = a
+			order = append(order, k)
+		}
+		if ts > a.lastT {
+			a.lastT, a.lastV = ts, v
+		}
+		if v > a.max {
+			a.max = v
+		}
+		if v < a.min {
+			a.min = v
+		}
+		a.sum += v
+		a.bytes += float64(len(str))
+		a.count++
+	}
+	var out [][]any
+	for _, k := range order {
+		a := aggs[k]
+		out = append(out, []any{k.fp, k.bucket, chsim.Tuple{a.lastV, a.lastT}, a.max, a.min, a.count, a.sum, a.bytes, k.tp, k.tp})
+	}
+	return out
 }
 
 // ---- chsim-backed handler ---------------------------------------------------------------
